@@ -28,6 +28,11 @@ def run(ctx):
     DP.d2_static_overrides_are_named(ctx, ("Constructor",))
     ctx.floor("D2", 4)
     V.v12_initial_conditions_bound(ctx)
+    V.v14_expansion_decides(ctx)
+    ctx.floor("V14", 1)
+    from ..engines import closure as G11E
+    G11E.g11_one_place_hands_out_labels(ctx)
+    ctx.floor("G11", 1)
     ctx.floor("V12", 2)
     from ..engines import sizecheck as SCC
     SCC.s0_compositions(ctx)
